@@ -1162,6 +1162,55 @@ func (x *bInterp) intrinsic(st *bstate, callee *ssa.Function, ins *ssa.Call, arg
 				return &bvStr{parts: []bstrPart{{kind: "in", s: fmt.Sprintf("%s[%d:]", s.parts[0].s, len(p.parts[0].s))}}}, true
 			}
 		}
+	case pkg == "strings" && strings.HasPrefix(name, "Builder."):
+		// a strings.Builder local: the string written so far is kept with the object
+		bp, ok := args[0].(*bvPtr)
+		if !ok {
+			return &bvUnknown{"strings.Builder not a local"}, true
+		}
+		o := st.mem[bp.obj]
+		if o == nil {
+			return &bvUnknown{"strings.Builder not a local"}, true
+		}
+		if o.f == nil {
+			o.f = map[string]bv{}
+		}
+		cur, _ := o.f[bp.path+"$built"].(*bvStr)
+		if cur == nil {
+			cur = &bvStr{}
+		}
+		add := func(ps ...bstrPart) {
+			n := &bvStr{parts: append(append([]bstrPart{}, cur.parts...), ps...)}
+			o.f[bp.path+"$built"] = n
+		}
+		switch strings.TrimPrefix(name, "Builder.") {
+		case "WriteString":
+			if sv, isS := args[1].(*bvStr); isS {
+				add(sv.parts...)
+			} else if fv, isF := args[1].(*bvField); isF {
+				add(bstrPart{kind: "field", s: fv.name})
+			} else {
+				add(bstrPart{kind: "u"})
+			}
+			return bvTuple{&bvInt{sym: "n"}, &bvErr{known: true, isNil: true}}, true
+		case "WriteByte", "WriteRune":
+			if iv, isI := args[1].(*bvInt); isI && iv.sym == "" {
+				add(bstrPart{kind: "const", s: string(rune(iv.k))})
+			} else if bb, isB := args[1].(*bvByte); isB && (bb.kind == "k" || bb.kind == "const") {
+				add(bstrPart{kind: "const", s: string(rune(bb.k))})
+			} else {
+				add(bstrPart{kind: "u"})
+			}
+			if strings.HasSuffix(name, "WriteByte") {
+				return &bvErr{known: true, isNil: true}, true
+			}
+			return bvTuple{&bvInt{sym: "n"}, &bvErr{known: true, isNil: true}}, true
+		case "String":
+			return cur, true
+		case "Grow", "Len", "Cap":
+			return &bvInt{sym: "n"}, true
+		}
+		return &bvUnknown{"strings." + name}, true
 	case pkg == "strings" && name == "Split":
 		if sep, ok := args[1].(*bvStr); ok && len(sep.parts) == 1 && sep.parts[0].kind == "const" {
 			if s, ok := args[0].(*bvStr); ok {
